@@ -806,3 +806,74 @@ Example send_bad_type_sat :
   exists q, send_ctcp (bs "nick") (bs "version") [] = Ok q /\
     decode_ctcp (mk_event (Some (bs "me")) (ev_command q) (ev_params q)) = Ok None.
 Proof. eexists. split; vm_compute; reflexivity. Qed.
+
+(* ---- histories: a whole inbox, and two clients answering each other ------ *)
+
+Lemma stage_all_notice v inbox : Forall (fun e => ev_command e = NOTICE) inbox ->
+  stage_all (default_table v) inbox = Ok [].
+Proof.
+  induction 1 as [|e r He _ IH]; [reflexivity|].
+  cbn [stage_all]. rewrite (notice_silent v e He), IH. reflexivity.
+Qed.
+
+Theorem stage_all_discipline v inbox outs : connected v = true ->
+  stage_all (default_table v) inbox = Ok outs ->
+  (length outs <= length (filter (fun e => streqb (ev_command e) PRIVMSG) inbox))%nat /\
+  Forall (fun o => ev_command o = NOTICE /\ ev_source o = None /\
+                   exists e name, In e inbox /\ ev_command e = PRIVMSG /\ ev_source e = Some name /\
+                                  is_answer_to name o) outs.
+Proof.
+  intros Hconn. revert outs. induction inbox as [|e r IH]; intros outs; cbn [stage_all].
+  - intros [= <-]. split; [cbn; lia | constructor].
+  - destruct (stage_total v e Hconn) as (o & Ho). rewrite Ho. cbn [rbind].
+    destruct (stage_all (default_table v) r) as [os|] eqn:Hr; cbn [rbind]; [|discriminate].
+    intros [= <-]. destruct (IH os eq_refl) as (Hlen & Hall).
+    destruct (stage_discipline v e o Hconn Ho) as (Hle & Hshape).
+    split.
+    + rewrite app_length. cbn [filter].
+      destruct o as [|o1 o']; [destruct (streqb _ _); cbn [length]; lia|].
+      destruct (Hshape o1 (or_introl eq_refl)) as (Hp & _).
+      rewrite Hp, streqb_refl. cbn [length] in *. lia.
+    + apply Forall_app. split.
+      * apply Forall_forall. intros x Hx. destruct (Hshape x Hx) as (Hp & c & name & _ & Hs & _ & _ & Ha).
+        pose proof Ha as (Hn & Hsrc & _). split; [exact Hn|]. split; [exact Hsrc|].
+        exists e, name. cbn [In]. auto.
+      * eapply Forall_impl; [|exact Hall]. cbn beta.
+        intros x (Hn & Hsrc & e' & name & Hin & Hrest). split; [exact Hn|]. split; [exact Hsrc|].
+        exists e', name. cbn [In]. auto.
+Qed.
+
+(* Two clients can never drive each other into a reply loop: whatever arrives at A, the
+   exchange is over after A's own answers - B answers nothing to them - however many rounds
+   are allowed; the answers are at most one per request in the inbox. *)
+Theorem volley_ends va vb na nb inbox rounds : connected va = true -> (2 <= rounds)%nat ->
+  exists outs, stage_all (default_table va) inbox = Ok outs /\
+    volley rounds va vb na nb inbox = Ok (outs, true).
+Proof.
+  intros Hconn Hr.
+  assert (Htot : exists outs, stage_all (default_table va) inbox = Ok outs).
+  { induction inbox as [|e r IH]; [eexists; reflexivity|]. cbn [stage_all].
+    destruct (stage_total va e Hconn) as (o & ->). destruct IH as (os & ->). cbn [rbind]. eauto. }
+  destruct Htot as (outs & Houts). exists outs. split; [exact Houts|].
+  destruct rounds as [|[|n]]; try lia.
+  destruct inbox as [|e0 r0].
+  { cbn in Houts. injection Houts as <-. reflexivity. }
+  cbn [volley]. rewrite Houts. cbn [rbind].
+  destruct (stage_all_discipline va _ outs Hconn Houts) as (_ & Hall).
+  destruct (map (as_received na) outs) as [|m ms] eqn:Hm.
+  { cbn [volley rbind fst snd]. rewrite app_nil_r. reflexivity. }
+  rewrite <- Hm. 
+  assert (Hsil : stage_all (default_table vb) (map (as_received na) outs) = Ok []).
+  { apply stage_all_notice. apply Forall_map. eapply Forall_impl; [|exact Hall].
+    cbn beta. intros o (Hn & _). exact Hn. }
+  rewrite Hm in *. cbn [volley]. rewrite Hsil. cbn [rbind map volley fst snd app].
+  destruct n; cbn [volley rbind fst snd]; rewrite app_nil_r; reflexivity.
+Qed.
+
+Example volley_sat :
+  volley 5 (ex_env true) (ex_env true) (bs "a") (bs "b")
+    [mk_event (Some (bs "b")) PRIVMSG [bs "a"; [1] ++ bs "PING 1" ++ [1]];
+     mk_event (Some (bs "b")) PRIVMSG [bs "a"; [1] ++ bs "NOPE" ++ [1]]]
+  = Ok ([notice (bs "b") ([1] ++ bs "PING 1" ++ [1]);
+         notice (bs "b") ([1] ++ bs "ERRMSG that is an unknown CTCP query" ++ [1])], true).
+Proof. vm_compute. reflexivity. Qed.
